@@ -131,6 +131,20 @@ Theorem C03_setter_protocol_pieces : forall ps n f c file sch,
   s_r s1 = conc (setp ps 0 sch) n f c /\ s_file s1 = is_file_str sch.
 Proof. exact setter_protocol. Qed.
 
+(* hash("") / search("") on a URL whose path is a list, port(""): clear_part (and the strip step, which does nothing
+   when the path is not opaque) *)
+Theorem C03_hash_clear_repr : forall u file, scheme u <> [] -> has_opaque_path u = false ->
+  s_r (run true (init_sst (repr_of u) file) [OClearPart P_FRAGMENT; OStrip]) = repr_of (set_fragment u None).
+Proof. exact hash_clear_repr. Qed.
+
+Theorem C03_search_clear_repr : forall u file, scheme u <> [] -> has_opaque_path u = false ->
+  s_r (run true (init_sst (repr_of u) file) [OClearPart P_QUERY; OStrip]) = repr_of (set_query u None).
+Proof. exact search_clear_repr. Qed.
+
+Theorem C03_port_clear_repr : forall u file, scheme u <> [] -> is_some (uhost u) = true ->
+  s_r (run true (init_sst (repr_of u) file) [OClearPart P_PORT]) = repr_of (set_port u None).
+Proof. exact port_clear_repr. Qed.
+
 (* non-vacuity of the record-level premises, and the theorems evaluated on http://h/p: username "u", then hash "f" *)
 Example C03_record_example :
   let u := mkurl (lit "http") [] [] (Some (HDomain (lit "h"))) None (PList [lit "p"]) None None in
@@ -168,5 +182,8 @@ Print Assumptions C03_username_setter_repr.
 Print Assumptions C03_password_setter_repr.
 Print Assumptions C03_host_setter_repr.
 Print Assumptions C03_setter_protocol_pieces.
+Print Assumptions C03_hash_clear_repr.
+Print Assumptions C03_search_clear_repr.
+Print Assumptions C03_port_clear_repr.
 Print Assumptions C03_record_example.
 Print Assumptions C03_pieces_example.
